@@ -548,4 +548,132 @@ theorem C04_digits_are_INTEGER_mysql (d : List Nat) (hne : d ≠ []) (hd : ∀ x
 theorem C04_digits_are_INTEGER_mindsdb (d : List Nat) (hne : d ≠ []) (hd : ∀ x ∈ d, inSet digitSet x) :
     lex LexRe_mindsdb.cfg d = .ok [.tok "INTEGER" false d] := C04_digits_are_INTEGER _ classOKnum_mindsdb d hne hd
 
+/-! ### quoted names: the printer's back-quoted form of ANY name is ONE `ID` token -/
+
+def bqSet : CSet := [(96, 96)]
+def notBqSet : CSet := [(0, 95), (97, 1114111)]
+
+def idShape2 (r : Re) : Option (CSet × CSet × CSet × CSet) :=
+  match r with
+  | .alt (.seq (.star true (.set a)) (.seq (.seq (.set b) (.star true (.set b'))) (.star true (.set a'))))
+      (.seq (.set q) (.seq (.seq (.alt (.set n) (.seq (.set q1) (.set q2)))
+        (.star true (.alt (.set n') (.seq (.set q3) (.set q4))))) (.set q5))) =>
+    if a == a' && b == b' && q == q1 && q == q2 && q == q3 && q == q4 && q == q5 && n == n' then some (a, b, q, n) else none
+  | _ => none
+
+theorem idShape2_spec {r : Re} {a b q n : CSet} (h : idShape2 r = some (a, b, q, n)) :
+    r = .alt (idCore a b) (bqRe q n) := by
+  unfold idShape2 at h
+  split at h
+  · rename_i a0 b0 b1 a1 q0 n0 q1 q2 n1 q3 q4 q5
+    by_cases hc : (a0 == a1 && b0 == b1 && q0 == q1 && q0 == q2 && q0 == q3 && q0 == q4 && q0 == q5 && n0 == n1) = true
+    · simp only [hc, if_true, Option.some.injEq, Prod.mk.injEq] at h
+      simp only [Bool.and_eq_true, beq_iff_eq] at hc
+      obtain ⟨⟨⟨⟨⟨⟨⟨c1, c2⟩, c3⟩, c4⟩, c5⟩, c6⟩, c7⟩, c8⟩ := hc
+      obtain ⟨h1, h2, h3, h4⟩ := h
+      subst h1; subst h2; subst h3; subst h4
+      subst c1; subst c2; subst c3; subst c4; subst c5; subst c6; subst c7; subst c8
+      rfl
+    · simp [hc] at h
+  · cases h
+
+def classOKbq (c : Cfg) : Bool :=
+  match splitAtID c.rules with
+  | none => false
+  | some (pre, idr, _) =>
+    pre.all (fun r => nonNull r.re && disjointR (first r.re) bqSet) && !idr.ignored &&
+    (match idShape2 idr.re with
+     | some (a, b, q, n) => !a.mem 96 && !b.mem 96 && q == bqSet && n == notBqSet
+     | none => false) &&
+    disjointR c.ignore bqSet
+
+theorem notBq_mem {c : Nat} (h1 : c ≠ 96) (h2 : c ≤ 1114111) : notBqSet.mem c = true := by
+  unfold notBqSet
+  by_cases h : c ≤ 95
+  · have : Nat.ble c 95 = true := Nat.ble_eq_true_of_le h
+    simp [CSet.mem, this]
+  · have h97 : 97 ≤ c := by omega
+    have a : Nat.blt c 97 = false := by
+      cases ha : Nat.blt c 97 with
+      | false => rfl
+      | true => rw [Nat.blt_eq] at ha; omega
+    have b : Nat.ble c 95 = false := by
+      cases hb : Nat.ble c 95 with
+      | false => rfl
+      | true => exact absurd (Nat.le_of_ble_eq_true hb) h
+    have d : Nat.ble c 1114111 = true := Nat.ble_eq_true_of_le h2
+    simp [CSet.mem, a, b, d]
+
+/-- **the back-quoted form of every non-empty name is one `ID` token** — every rule list with `classOKbq`, every name over
+the code points of a Python string (back-quotes inside doubled, as `parts_to_str` prints them) -/
+theorem C04_quoted_is_ID (c : Cfg) (hc : classOKbq c = true) (body : List Nat) (hne : body ≠ [])
+    (hcp : ∀ x ∈ body, x ≤ 1114111) :
+    lex c (96 :: (bqBody 96 body ++ [96])) = .ok [.tok "ID" false (96 :: (bqBody 96 body ++ [96]))] := by
+  unfold classOKbq at hc
+  cases hs : splitAtID c.rules with
+  | none => rw [hs] at hc; cases hc
+  | some x =>
+    obtain ⟨pre, idr, post⟩ := x
+    rw [hs] at hc
+    simp only [Bool.and_eq_true, List.all_eq_true, Bool.not_eq_true'] at hc
+    obtain ⟨⟨⟨hpre, hign⟩, hid⟩, hignore⟩ := hc
+    obtain ⟨erules, ename⟩ := splitAtID_spec hs
+    have hq96 : inSet bqSet 96 := ⟨(96, 96), List.mem_cons_self, Nat.le_refl _, Nat.le_refl _⟩
+    have hnone : ∀ r ∈ pre, matchAt c.word r.re ⟨[], 96 :: (bqBody 96 body ++ [96])⟩ = none := by
+      intro r hr
+      have := hpre r hr
+      exact matchAt_none_of_first this.1 this.2 (p := ⟨[], 96 :: (bqBody 96 body ++ [96])⟩) rfl hq96
+    cases hsh : idShape2 idr.re with
+    | none => rw [hsh] at hid; cases hid
+    | some t4 =>
+      obtain ⟨A, B, Q, N⟩ := t4
+      rw [hsh] at hid
+      simp only [Bool.and_eq_true, Bool.not_eq_true', beq_iff_eq] at hid
+      obtain ⟨⟨⟨hA, hB⟩, hQ⟩, hN⟩ := hid
+      subst hQ; subst hN
+      have ere := idShape2_spec hsh
+      have hok : BqOK bqSet notBqSet 96 body :=
+        ⟨by decide, by decide, fun x hx hne => notBq_mem hne (hcp x hx)⟩
+      have hidm : matchAt c.word idr.re ⟨[], 96 :: (bqBody 96 body ++ [96])⟩
+          = some ⟨(96 :: (bqBody 96 body ++ [96])).reverse, []⟩ := by
+        rw [ere]
+        unfold matchAt
+        rw [m_alt]
+        have h1 := idCore_none_head c.word A B [] 96 (bqBody 96 body ++ [96]) hA hB
+        have h2 := bqRe_match c.word bqSet notBqSet 96 body hne hok []
+        unfold matchAt at h1 h2
+        rw [h1, h2]
+        simp [Option.orElse, Pos.fin]
+      have hfm : firstMatch c.word c.rules ⟨[], 96 :: (bqBody 96 body ++ [96])⟩
+          = some (idr, ⟨(96 :: (bqBody 96 body ++ [96])).reverse, []⟩) := by
+        rw [erules, firstMatch_skip pre _ hnone]
+        simp [firstMatch, hidm]
+      have hig : c.ignore.mem 96 = false := by
+        cases h : c.ignore.mem 96 with
+        | false => rfl
+        | true => exact (disjointR_sound hignore (mem_sound h) hq96).elim
+      unfold lex
+      simp only [List.length_cons, lexLoop, hig, Bool.false_eq_true, if_false, hfm]
+      simp only [List.length_nil, Nat.zero_lt_succ, if_true]
+      cases hn : (bqBody 96 body ++ [96]).length + 1 with
+      | zero => omega
+      | succ n =>
+        have ht : List.take ((bqBody 96 body).length + 1) (bqBody 96 body ++ [96]) = bqBody 96 body ++ [96] := by
+          apply List.take_of_length_le; simp
+        simp [lexLoop, ename, hign, between, ht]
+
+theorem classOKbq_sqlite : classOKbq LexRe_sqlite.cfg = true := by decide +kernel
+theorem classOKbq_mysql : classOKbq LexRe_mysql.cfg = true := by decide +kernel
+theorem classOKbq_mindsdb : classOKbq LexRe_mindsdb.cfg = true := by decide +kernel
+
+theorem C04_quoted_is_ID_sqlite (body : List Nat) (hne : body ≠ []) (hcp : ∀ x ∈ body, x ≤ 1114111) :
+    lex LexRe_sqlite.cfg (96 :: (bqBody 96 body ++ [96])) = .ok [.tok "ID" false (96 :: (bqBody 96 body ++ [96]))] :=
+  C04_quoted_is_ID _ classOKbq_sqlite body hne hcp
+theorem C04_quoted_is_ID_mysql (body : List Nat) (hne : body ≠ []) (hcp : ∀ x ∈ body, x ≤ 1114111) :
+    lex LexRe_mysql.cfg (96 :: (bqBody 96 body ++ [96])) = .ok [.tok "ID" false (96 :: (bqBody 96 body ++ [96]))] :=
+  C04_quoted_is_ID _ classOKbq_mysql body hne hcp
+theorem C04_quoted_is_ID_mindsdb (body : List Nat) (hne : body ≠ []) (hcp : ∀ x ∈ body, x ≤ 1114111) :
+    lex LexRe_mindsdb.cfg (96 :: (bqBody 96 body ++ [96])) = .ok [.tok "ID" false (96 :: (bqBody 96 body ++ [96]))] :=
+  C04_quoted_is_ID _ classOKbq_mindsdb body hne hcp
+
 end MindsVerif.Props.C04Lex
